@@ -173,6 +173,29 @@ Proof.
   - now subst.
 Qed.
 
+(* a method that is not overridden keeps the sub-cache it always had *)
+Lemma plain_method_keeps_its_name cls name v : subcache_name (method_id cls name false) v = subcache_name name v.
+Proof. reflexivity. Qed.
+
+(* a method and the method of the same name it overrides (defined in another class), with the same version or none,
+   have different sub-caches *)
+Lemma overriding_methods_apart cls1 cls2 name v :
+  cls1 <> cls2 -> subcache_name (method_id cls1 name true) v <> subcache_name (method_id cls2 name true) v.
+Proof.
+  intros Hne E. apply Hne. unfold method_id, subcache_name in E.
+  destruct v as [v|].
+  - rewrite <- !app_assoc in E. apply app_inv_tail in E. exact E.
+  - apply app_inv_tail in E. exact E.
+Qed.
+
+(* ... also from the sub-cache of an unrelated method that is not overridden, whose name holds no dot *)
+Lemma overridden_apart_from_plain cls name other :
+  ~ In "."%char other -> subcache_name (method_id cls name true) None <> subcache_name (method_id cls other false) None.
+Proof.
+  intros Hd E. apply Hd. cbn [method_id subcache_name] in E. rewrite <- E.
+  apply in_or_app. right. now left.
+Qed.
+
 (* ---------- control keywords, one call at a time ---------- *)
 Section Step.
   Variable body : list (str * value) -> nat -> value.
